@@ -7,23 +7,6 @@ LEVEL = 'proof'
 
 def check(repo, rep):
     d = feed(rep, repo, 'C02', 'general')
-    r0 = next((r for r in d['runs'] if r.get('mode') == 0 and not r.get('c04')), None)
-    if r0 is None or 'ctor' not in r0:
-        rep.unknown('constructor analysis missing')
-    else:
-        ct = r0['ctor']
-        for o in ct['obligations']:
-            rep.obligations.append(dict(rule=o['rule'], ok=o['ok'], where=o['where']))
-        for a in ct['alarms']:
-            construct = 'StreamTokenizer.__init__[%s]' % ';'.join('%s=%s' % (c[1], c[2]) for c in a['conds'][-3:])
-            if a.get('imprecise'):
-                rep.unknown('constructor obligation "%s" fails only on an imprecise path (%s)' % (a['rule'], a['imprecise']))
-                continue
-            rep.violations.append(dict(rule=a['rule'], construct=construct, where=a['where'],
-                                       message='%s -- constructor leaf %s' % (a['rule'], a['input']),
-                                       detail=dict(branch_conditions=a['conds'], could_not_entail=a['failed'], witness=a['witness'], spec_region=ct['spec'])))
-        rep.analysed['constructor_spec_region'] = ct['spec']
-        rep.analysed['mode_flag_fields'] = ct.get('flag_fields')
     rep.explanation = EXPL + (" C02 obligations: len(token) <= max_length at every DELIVER and len(buffer) <= max_length-1 at every loop head; "
                               "a token shorter than min_length only in non-strict mode, with the GHOST adjacency flag set (the code's own "
                               "continuation flag is not trusted) and start == previous end + 1; a token decided without look-ahead has exactly "
@@ -32,3 +15,12 @@ def check(repo, rep):
     rep.trusted_base = TRUSTED
     rep.assumptions = ASSUME
     rep.floor('C02 obligations', len(rep.obligations), 150)
+
+
+def thorough(repo, rep):
+    from ..linear_selfcheck import run
+    r = run()
+    rep.extra['arithmetic_core_selfcheck'] = r
+    if r['unsound']:
+        rep.unknown('the Fourier-Motzkin core disagreed with brute force on %d of %d random systems: no verdict of this check can be trusted' % (r['unsound'], r['systems']))
+    print('arithmetic core self-check: %s' % r)
